@@ -1,1 +1,153 @@
-(** Props/C12.v — placeholder, to be written. *)
+(** Props/C12.v — runs are independent: a run never alters shared definitions or other runs.
+
+    Model: Model/Alias.v, a heap machine.  [dh] is the DEFINITION heap (cached
+    PipelineDefinition bodies and config.vars — it persists across runs: it is the cache),
+    a run has a private state [priv] (its Context, the objects it creates — its own id
+    namespace —, status, probe trace).  [step dh p o] is the effect of one operation;
+    [run1 dh r] a whole run of [r] from a fresh context; [history dh rs] runs one after the
+    other in one process; [sched_run step dh ps sch] threads [ps t] executing the schedule
+    [sch] — an ARBITRARY merge of their operation lists, any length, any number of threads.
+
+    Level: proof on the model, PARTIAL — CPython-level atomicity (GIL) of one dict/list
+    operation, the logging module and third-party step modules are not modelled; steps are
+    the unit of interleaving.
+
+    FINDING (C12_no_def_mutation_refuted): the full statement
+
+        forall dh r, closed dh = true -> fst (run1 dh r) = dh
+
+    is FALSE of the faithful model and of the code: Step.set_step_input_context does
+    context.update(in), so a container given under `in` IS the cached definition's object;
+    append / contextmerge / default / py (and add) then change the definition in place and
+    the next run of the same pipeline starts from a different definition.  The proved version
+    carries the excluding hypothesis [disciplined]: a syntactic, decidable check of the run's
+    operations — no in-place operation targets a key that may be bound to a definition object
+    (bound by `in` / configvars, or a by-reference copy ({k:ff}, !py k, contextcopy, foreach
+    element) of such a key), and no such by-reference value is stored inside a container. *)
+From Coq Require Import List String ZArith.
+From PV Require Import Alias AliasProofs.
+Import ListNotations.
+Open Scope string_scope.
+
+(** (1) the defect: a definition list injected by `in`, appended to in place.  The definition
+    heap differs after the run, and the SAME run made again yields a different result. *)
+Theorem C12_no_def_mutation_refuted :
+  exists defs r, let dh := fst (load defs []) in
+    closed dh = true /\ fst (run1 dh r) <> dh /\
+    snd (run1 (fst (run1 dh r)) r) <> snd (run1 dh r).
+Proof. exact no_def_mutation_refuted. Qed.
+Print Assumptions C12_no_def_mutation_refuted.
+
+(** what the yaml loader builds holds no pointer into any run's heap *)
+Theorem C12_loaded_definitions_closed : forall defs, closed (fst (load defs [])) = true.
+Proof. exact load_closed. Qed.
+Print Assumptions C12_loaded_definitions_closed.
+
+(** (2) every disciplined run, of any length, leaves the definition heap exactly as it was ... *)
+Theorem C12_no_def_mutation_partial : forall dh r,
+  closed dh = true -> disciplined (r_ops r) = true -> fst (run1 dh r) = dh.
+Proof. exact disciplined_run_unchanged. Qed.
+Print Assumptions C12_no_def_mutation_partial.
+
+(** ... after EVERY operation of the run, not only at its end ... *)
+Theorem C12_no_def_mutation_every_step : forall dh r,
+  disciplined (r_ops r) = true -> read_only step dh (start r) (r_ops r).
+Proof. exact disciplined_run_read_only. Qed.
+Print Assumptions C12_no_def_mutation_every_step.
+
+(** ... and so does any number of such runs, each of which yields what it yields alone *)
+Theorem C12_history_unchanged : forall rs dh,
+  closed dh = true -> Forall (fun r => disciplined (r_ops r) = true) rs ->
+  history dh rs = (dh, map (fun r => snd (run1 dh r)) rs).
+Proof. exact disciplined_history. Qed.
+Print Assumptions C12_history_unchanged.
+
+(** (3) if no run of a history changes the definition heap, then run j of a pipeline from an
+    equal initial context yields exactly what run i of it yielded — whatever other runs,
+    how many and in which order, happened in between *)
+Theorem C12_rerun_equal : forall rs dh i j r,
+  Forall (fun r => fst (run1 dh r) = dh) rs ->
+  nth_error rs i = Some r -> nth_error rs j = Some r ->
+  nth_error (snd (history dh rs)) i = Some (snd (run1 dh r)) /\
+  nth_error (snd (history dh rs)) j = Some (snd (run1 dh r)).
+Proof. exact rerun_equal. Qed.
+Print Assumptions C12_rerun_equal.
+
+Theorem C12_rerun_equal_disciplined : forall rs dh i j r,
+  closed dh = true -> Forall (fun r => disciplined (r_ops r) = true) rs ->
+  nth_error rs i = Some r -> nth_error rs j = Some r ->
+  nth_error (snd (history dh rs)) i = nth_error (snd (history dh rs)) j.
+Proof. exact disciplined_rerun_equal. Qed.
+Print Assumptions C12_rerun_equal_disciplined.
+
+(** (4) interleaving, for ANY machine with a shared part and per-thread private parts: if each
+    thread, run alone from [s], leaves the shared part equal to [s] at each of its steps, then
+    under EVERY schedule the shared part is untouched and each thread ends in the private
+    state it reaches alone *)
+Theorem C12_interleaving : forall (S Pv O : Type) (stp : S -> Pv -> O -> S * Pv) sch s ps,
+  (forall t, read_only stp s (ps t) (proj t sch)) ->
+  fst (sched_run stp s ps sch) = s /\
+  forall t, snd (sched_run stp s ps sch) t = snd (exec stp s (ps t) (proj t sch)).
+Proof. exact @interleaving. Qed.
+Print Assumptions C12_interleaving.
+
+(** ... instantiated: disciplined runs on concurrent threads, each with its own context *)
+Theorem C12_interleaving_disciplined : forall dh (sch : list (nat * op)) (inits : nat -> list (string * tree)),
+  (forall t, disciplined (proj t sch) = true) ->
+  let ps := fun t => init_ctx (inits t) empty_priv in
+  fst (sched_run step dh ps sch) = dh /\
+  forall t, snd (sched_run step dh ps sch) t = snd (run dh (ps t) (proj t sch)).
+Proof. exact disciplined_interleaving. Qed.
+Print Assumptions C12_interleaving_disciplined.
+
+(* ---------------------------------------------------------------- non-vacuity *)
+(* `in: {k: [1, 2]}`, set c = '{k}' (a rebuilt copy), append 3 to c, keep a by-reference
+   alias r of the definition object without touching it *)
+Definition good_defs : list tree := [TList [TInt 1; TInt 2]].
+Definition good_run : runspec :=
+  mkrun [("z", TList [TInt 0])]
+        [InjectIn "k" (CPtr (D 0)); SetFmt "c" (TRef RCopy "k"); SetFmt "r" (TRef RFlat "k");
+         AppendKey "c" (TInt 3); PyAppend "z" 9; Merge [("c", TList [TInt 4])]; Unset "k"; Probe].
+Definition other_run : runspec :=
+  mkrun [] [InjectIn "k" (CPtr (D 0)); SetFmt "m" (TDict [("x", TRef RCopy "k")]);
+            Defaults [("m", TDict [("y", TInt 1)])]; Probe].
+
+Example C12_partial_nonvacuous :
+  let dh := fst (load good_defs []) in
+  disciplined (r_ops good_run) = true /\
+  o_final (snd (run1 dh good_run)) =
+    [("z", TList [TInt 0; TInt 9]); ("c", TList [TInt 1; TInt 2; TInt 3; TInt 4]);
+     ("r", TList [TInt 1; TInt 2])] /\
+  fst (run1 dh good_run) = dh.
+Proof. vm_compute. repeat split. Qed.
+
+(* the refuted run is (of course) rejected by the discipline *)
+Example C12_refuted_run_not_disciplined : disciplined (r_ops witness_run) = false.
+Proof. reflexivity. Qed.
+
+Example C12_rerun_nonvacuous :
+  let dh := fst (load good_defs []) in
+  let rs := [good_run; other_run; good_run; other_run; good_run] in
+  Forall (fun r => disciplined (r_ops r) = true) rs /\
+  nth_error (snd (history dh rs)) 0 = nth_error (snd (history dh rs)) 4 /\
+  nth_error (snd (history dh rs)) 0 <> nth_error (snd (history dh rs)) 1.
+Proof.
+  cbv zeta. split; [repeat constructor|]. split; [vm_compute; reflexivity|].
+  vm_compute. intro H. discriminate H.
+Qed.
+
+Example C12_interleaving_nonvacuous :
+  let dh := fst (load good_defs []) in
+  let sch := [(0, InjectIn "k" (CPtr (D 0))); (1, InjectIn "k" (CPtr (D 0)));
+              (1, SetFmt "m" (TRef RCopy "k")); (0, SetFmt "c" (TRef RCopy "k"));
+              (0, AppendKey "c" (TInt 3)); (1, PyAppend "m" 7); (0, Probe); (1, Probe)]%nat in
+  (forall t, disciplined (proj t sch) = true) /\
+  o_final (result_of dh (snd (sched_run step dh (fun _ => empty_priv) sch) 0%nat)) =
+    [("k", TList [TInt 1; TInt 2]); ("c", TList [TInt 1; TInt 2; TInt 3])] /\
+  o_final (result_of dh (snd (sched_run step dh (fun _ => empty_priv) sch) 1%nat)) =
+    [("k", TList [TInt 1; TInt 2]); ("m", TList [TInt 1; TInt 2; TInt 7])].
+Proof.
+  cbv zeta. split.
+  - intro t. destruct t as [|[|t]]; reflexivity.
+  - vm_compute. split; reflexivity.
+Qed.
